@@ -177,3 +177,60 @@ fn k_uniform_real() {
     assert!(rng.draws == 1, "C13: Uniform draws exactly one word here");
     kani::cover!(v == low, "sample equals low");
 }
+
+// ------------------------------------------------------------------------------------------
+// C12: distribution parameter judgement, one kernel per family (parameters: any f64 bit pattern)
+// ------------------------------------------------------------------------------------------
+pub(crate) fn format_stub(_args: core::fmt::Arguments<'_>) -> String {
+    String::new()
+}
+fn display_stub<T>(_e: &T, _f: &mut core::fmt::Formatter<'_>) -> core::fmt::Result {
+    Ok(())
+}
+fn prob(p: f64) -> bool {
+    p >= 0.0 && p <= 1.0
+}
+macro_rules! dist_validate {
+    ($name:ident, $mk:expr, $ok:expr, $cover:expr) => {
+        #[kani::proof]
+        #[kani::unwind(3)]
+        #[kani::stub(alloc::fmt::format, format_stub)]
+        fn $name() {
+            let (a, b, c): (f64, f64, f64) = (kani::any(), kani::any(), kani::any());
+            let n: u64 = kani::any();
+            let mkf: fn(f64, f64, f64, u64) -> DistType = $mk;
+            let dt: DistType = mkf(a, b, c, n);
+            let d = Dist { dist: dt, start: kani::any(), max: kani::any() };
+            let r = d.validate();
+            let okf: fn(f64, f64, f64, u64) -> bool = $ok;
+            if r.is_ok() {
+                assert!(okf(a, b, c, n), "C12: only distributions whose parameters are valid are accepted (NaN never accepted where a probability or scale is required)");
+            }
+            let cov: fn(f64, f64, f64, u64) -> bool = $cover;
+            kani::cover!(r.is_ok() && cov(a, b, c, n), "accepted at a parameter corner");
+            core::mem::forget(r);
+        }
+    };
+}
+dist_validate!(k_dist_validate_uniform, |a, b, _c, _n| DistType::Uniform { low: a, high: b },
+    |a, b, _c, _n| a.is_finite() && b.is_finite() && a <= b && (b - a).is_finite(), |a, b, _c, _n| a == b);
+dist_validate!(k_dist_validate_normal, |a, b, _c, _n| DistType::Normal { mean: a, stdev: b },
+    |_a, b, _c, _n| b.is_finite(), |_a, b, _c, _n| b == 0.0);
+dist_validate!(k_dist_validate_lognormal, |a, b, _c, _n| DistType::LogNormal { mu: a, sigma: b },
+    |_a, b, _c, _n| b.is_finite(), |_a, b, _c, _n| b == 0.0);
+dist_validate!(k_dist_validate_skewnormal, |a, b, c, _n| DistType::SkewNormal { location: a, scale: b, shape: c },
+    |_a, b, c, _n| b.is_finite() && b > 0.0 && c.is_finite(), |_a, _b, c, _n| c == 0.0);
+dist_validate!(k_dist_validate_binomial, |a, _b, _c, n| DistType::Binomial { trials: n, probability: a },
+    |a, _b, _c, n| prob(a) && (a == 0.0 || a >= DIST_MIN_PROBABILITY) && n <= 1_000_000_000, |a, _b, _c, n| a == 1.0 && n == 1_000_000_000);
+dist_validate!(k_dist_validate_geometric, |a, _b, _c, _n| DistType::Geometric { probability: a },
+    |a, _b, _c, _n| prob(a) && (a == 0.0 || a >= DIST_MIN_PROBABILITY), |a, _b, _c, _n| a == DIST_MIN_PROBABILITY);
+dist_validate!(k_dist_validate_pareto, |a, b, _c, _n| DistType::Pareto { scale: a, shape: b },
+    |a, b, _c, _n| a > 0.0 && b > 0.0, |a, _b, _c, _n| a == f64::MIN_POSITIVE);
+dist_validate!(k_dist_validate_weibull, |a, b, _c, _n| DistType::Weibull { scale: a, shape: b },
+    |a, b, _c, _n| a > 0.0 && b > 0.0, |a, _b, _c, _n| a.is_infinite());
+dist_validate!(k_dist_validate_poisson, |a, _b, _c, _n| DistType::Poisson { lambda: a },
+    |a, _b, _c, _n| a > 0.0 && a <= 1e42, |a, _b, _c, _n| a == 1e42);
+dist_validate!(k_dist_validate_gamma, |a, b, _c, _n| DistType::Gamma { scale: a, shape: b },
+    |a, b, _c, _n| a > 0.0 && b > 0.0, |_a, b, _c, _n| b == 1.0);
+dist_validate!(k_dist_validate_beta, |a, b, _c, _n| DistType::Beta { alpha: a, beta: b },
+    |a, b, _c, _n| a > 0.0 && b > 0.0, |a, _b, _c, _n| a == 1.0);
